@@ -40,7 +40,7 @@ def bytesExpected (e : Bool) : Res :=
 
 def envHandleControl (len : Int) (fin ioErr masked : Bool) (op : Nat) (pongErr known parseErr : Bool) : Env :=
   mkEnv [("h.fin", fin), ("readFramePayload:err!=nil", ioErr), ("h.masked", masked), ("writeControl:err!=nil", pongErr),
-    ("activePings[string(c.readControlBuf[:h.payloadLength])]:ok", known), ("parseClosePayload:err!=nil", parseErr)]
+    ("activePings[string(c.readControlBuf[:h.payloadLength])]#1", known), ("parseClosePayload:err!=nil", parseErr)]
     [("h.payloadLength", len), ("h.opcode", (op : Int))] ["select"]
 
 /-- a control frame longer than 125 bytes or fragmented is a protocol error answered with a Close frame; the payload is
